@@ -1,15 +1,15 @@
 package main
 
 import (
-	"sync"
-	"runtime"
 	"encoding/json"
 	"fmt"
 	"os"
 	"os/exec"
 	"path/filepath"
+	"runtime"
 	"sort"
 	"strings"
+	"sync"
 )
 
 // Corpus entry: a change to the repository with the expected verdict.
